@@ -1,6 +1,7 @@
 #!/bin/sh
 # tools/merge_branch.sh <branch>...  : merge agent branches into main, resolving the generated files
 cd "$(dirname "$0")/.." || exit 1
+git add -A; git commit -q -m "wip before merge" 2>/dev/null
 for b in "$@"; do
   git merge --no-edit "$b" >/tmp/merge_$b.log 2>&1
   for f in $(git diff --name-only --diff-filter=U); do
